@@ -14,6 +14,9 @@ CONSTANTS
   Fine = FALSE
   CheckRotTo = TRUE
   CommitAfterSync = TRUE
+  MaxTears = 1
+  TornMode = "refuse"
+  Asaps = {TRUE, FALSE}
 VIEW View
 INVARIANTS OffsetsChain ReplayExact TruncSafe FlipDetected CommitMonotone CommitAtBoundary CommitDurable StopCommitsAll
 CHECK_DEADLOCK FALSE
